@@ -20,6 +20,8 @@ PROFILES_QUICK = [
     {"block_size": 8192, "blocks_offset": 0x200, "data_gap": 4096, "full": True, "sel": 3, "hdr": {"image_type": 4, "flags": 0x100, "desc": b"a description"}},
     {"block_size": 4096, "blocks_offset": 1024, "full": True, "sel": 3, "hdr": {"image_type": 2, "flags": 0x20000}},
     {"block_size": 4096, "blocks_offset": 512, "full": True, "sel": 4, "hdr": {"image_type": 3, "uuid_link": b"\x33" * 16, "uuid_parent": b"\x44" * 16}},
+    {"block_size": 4096, "blocks_offset": 520, "data_gap": 8 * 13, "full": True, "sel": 3},     # block map and data area at offsets that are not sector multiples
+    {"block_size": 1 << 20, "blocks_offset": 512, "data_gap": 1000, "full": False, "sel": 4},
 ]
 PROFILES_THOROUGH = PROFILES_QUICK + [
     {"block_size": 65536, "blocks_offset": 1024, "full": True},
@@ -42,7 +44,7 @@ def build(img, prof, P=None, size_bytes=None):
     bo = prof.get("blocks_offset", 512)
     doff = None
     if prof.get("data_gap"):
-        doff = (bo + 4 * n + 511) // 512 * 512 + prof["data_gap"]
+        doff = (bo + 4 * n + 511) // 512 * 512 + prof["data_gap"]    # (need not be a multiple of the sector size)
     if P is None:
         P = n + 1
     vf, cell, data_offset, size_b = enc_vdi.build(img, block_size=bs, blocks_offset=bo, data_offset=doff, P=P, hdr_kw=prof.get("hdr"), file_id=prof.get("fid", 0))
@@ -78,7 +80,7 @@ def make_trace(tid, rng, nops=30, **opt):
     parent = rng.random() < 0.3
     tail = rng.choice([0, 0, 512, bs // 2, bs - 512])
     img = {"n": n, "cb": 1, "map": {i: mp[i] for i in range(n)}, "size": n, "parent": parent}
-    prof = {"block_size": bs, "blocks_offset": rng.choice([512, 1024, 4096]), "fid": rng.randrange(0, 0x90),
+    prof = {"block_size": bs, "blocks_offset": rng.choice([512, 1024, 4096, 520]), "fid": rng.randrange(0, 0x90), "data_gap": rng.choice([0, 0, 4096, 8 * 25, 1000]),
             "hdr": {"image_type": rng.choice([1, 1, 2, 3, 4]), "flags": rng.choice([0, 0, 1, 2, 0x100, 0x20000]),
                     "uuid_link": bytes(rng.randrange(256) for _ in range(16)), "uuid_parent": bytes(rng.randrange(256) for _ in range(16))}}
     size_b = n * bs - tail
